@@ -7,5 +7,6 @@ CONSTANTS
   ExpiryRecheck = TRUE
   EntryApi = TRUE
   FlushLock = TRUE
+  CollectOwn = TRUE
 SPECIFICATION Spec
 INVARIANT EmitSched
